@@ -154,6 +154,22 @@ def impl():
     class TapOther(_TapMixin, _DictBacked):
         pass
 
+    # the other bundled provider: SQLAlchemy on in-memory sqlite (one database per provider object; tables of schema `main` are
+    # created from the configuration).  Behaves like `other` (truthy whatever it knows), which is how the model sees it.
+    try:
+        from sqlalchemy.pool import StaticPool
+        from sqllineage.core.metadata.sqlalchemy import SQLAlchemyMetaDataProvider
+
+        class TapSql(_TapMixin, SQLAlchemyMetaDataProvider):
+            def __init__(self, metadata=None):
+                super().__init__("sqlite://", engine_kwargs={"poolclass": StaticPool, "connect_args": {"check_same_thread": False}})
+                with self.engine.begin() as conn:
+                    for name, cols in (metadata or {}).items():
+                        sch, tab = name.split(".")
+                        conn.exec_driver_sql(f'create table {tab} ({", ".join(cols)})')
+        I.TapSql = TapSql
+    except Exception:      # noqa  (sqlalchemy missing: the kind is skipped)
+        I.TapSql = None
     I.TapDict, I.TapOther = TapDict, TapOther
 
     # statement tap
@@ -219,6 +235,8 @@ def new_provider(cfg):
         return None
     I = impl()
     md = {k: list(v) for k, v in cfg["base"].items()}
+    if cfg["kind"] == "sql":
+        return I.TapSql(md) if I.TapSql is not None else I.TapOther(md)
     return I.TapDict(md) if cfg["kind"] == "dict" else I.TapOther(md)
 
 
@@ -333,6 +351,7 @@ PROVIDERS = [
     {"kind": "dict", "base": MD2},
     {"kind": "other", "base": {}},      # truthy although it knows nothing
     {"kind": "other", "base": MD1},
+    {"kind": "sql", "base": MD1},       # SQLAlchemyMetaDataProvider on in-memory sqlite
 ]
 SRC = ["main.s", "main.r", "main.t", "main.u", "main.v", "main.x"]
 TGT = ["main.t", "main.u", "main.v"]
@@ -490,7 +509,7 @@ def exec_case(case):
 
 def model_request(cfg, runs):
     return {"cmd": "provhist",
-            "provider": {"kind": cfg["kind"], "base": [[k, v] for k, v in cfg["base"].items()]},
+            "provider": {"kind": "other" if cfg["kind"] == "sql" else cfg["kind"], "base": [[k, v] for k, v in cfg["base"].items()]},
             "probe": PROBE,
             "runs": [{"script": r["desc"], "faults": r.get("faults") or {}} for r in runs]}
 
@@ -807,7 +826,7 @@ def exec_sched_case(case):
 
 def sched_model_request(case, steps):
     return {"cmd": "provsched",
-            "providers": [{"kind": c["kind"], "base": [[k, v] for k, v in c["base"].items()]} for c in case["cfgs"]],
+            "providers": [{"kind": "other" if c["kind"] == "sql" else c["kind"], "base": [[k, v] for k, v in c["base"].items()]} for c in case["cfgs"]],
             "threads": [{"pid": t["pid"], "script": t["spec"]["desc"], "faults": t["spec"].get("faults") or {}}
                         for t in case["threads"]],
             "sched": [st[0] for st in steps]}
